@@ -715,6 +715,12 @@ def hStCase (args : List String) (real : Option String) : Option Out := do
   -- traffic: one mutation per opened stream whose high seqno is not 2^64-1 (harness rule)
   let pushed := fun (offs : List (Vb × Offset)) =>
     (offs.filter fun p => push && Startup.trueHigh c p.1 != maxU64).length
+  -- case names `lpanic<K>`: the consumer's listener panics on the first event it is handed (before acknowledging it). Nothing in the
+  -- library recovers it (dcp.go simplifiedConsumer.ConsumeEvent calls the listener directly): the process ends with the consumer's panic
+  let listenerPanics := _name.startsWith "lpanic"
+  let exit := match exit with
+    | .running offs => if listenerPanics && pushed offs > 0 then Startup.Exit.fail "listener-panic" else exit
+    | _ => exit
   let lateSome := Startup.deliversBeforeStopAny c delay push
   let model := match exit with
     | .running offs =>
@@ -725,7 +731,7 @@ def hStCase (args : List String) (real : Option String) : Option Out := do
           "ends=[" ++ join (endedAssigned.map fun vb => s!"{vb}:{Startup.endsOf c vb}") ++ "] refused=[]"
       else s!"{showReqs offs} events={pushed offs}"
     | .fail cls =>
-      s!"exit-fail:{cls} events={if lateSome then "some" else "none"}" ++
+      s!"exit-fail:{cls} events={if lateSome || cls == "listener-panic" then "some" else "none"}" ++
         (if endCase then s!" rereqs={if cls == "reopen-gave-up" then Startup.reopenAttempts else 0}" else "")
   let model := match exit with | .running _ => "running " ++ model | _ => model
   -- a prompt error answer racing with traffic: both `none` and `some` are possible
